@@ -347,7 +347,7 @@ PROPS["C05"] = {
 PROPS["C06"] = {
     "lean": ["SioVerif.Props.C06"],
     "components": ["timed:TestLifecycle"],
-    "facts": ["sioConnectRechecksClosed"],
+    "facts": ["sioConnectRechecksClosed", "eioTransportCloseAsync"],
     "timeout": {"quick": 900, "thorough": 3000},
     "rule": "real server and client stacks on the in-memory network under virtual time: termination cause {client Close, TCP cut, black-hole until ping timeout, server "
             "Disconnect(false), Disconnect(true), client DISCONNECT, Server.Close, undecodable packet} x phase {while a namespace middleware runs, connected idle, in the middle "
